@@ -961,6 +961,15 @@ class BoolVec:
         return NotImplemented
 
 
+def iszero(v):
+    """v == 0 for an array element that may be a number or a truth value (boolean arrays: False is the zero)"""
+    if isinstance(v, z3.BoolRef):
+        return z3.Not(v)
+    if isinstance(v, bool):
+        return z3.BoolVal(not v)
+    return v == 0
+
+
 class PolyFlags(dict):
     """ndarray.flags: flags["C_CONTIGUOUS"] and flags.c_contiguous"""
 
@@ -1611,9 +1620,19 @@ def install(reg):
             return ArgWhere(a)
         raise U("numpy.argwhere of this value", node)
 
+    @ax("numpy.mod")
+    def mod_(ex, args, kw, node):
+        # numpy.mod(exponents, 1): the fractional parts.  Exponent matrices of the model hold integers (sort Mono), so every
+        # entry is 0; what the real array does with values that are not whole numbers is outside the model (bounded checks, C20).
+        if len(args) == 2 and isinstance(args[0], ExpMat) and isinstance(args[1], int) and args[1] == 1 and not kw:
+            return WholeParts(args[0])
+        raise U("numpy.mod of these values", node)
+
     @ax("numpy.all")
     def all_(ex, args, kw, node):
         a = args[0]
+        if isinstance(a, bool) and len(args) == 1 and not kw:
+            return a
         if isinstance(a, RowsAllZero) and (args[1:] == [-1] or kw.get("axis") == -1):
             m = a.mat
             return BoolVec(m.n, lambda t: mzero(m.row(t), m.D))
@@ -1622,6 +1641,18 @@ def install(reg):
         if isinstance(a, Arr) and len(args) == 1 and not kw:
             return ex.ctx.forall_idx(lambda i: (a.elem(i) != 0) if a.kind != "bool" else a.elem(i), a.shape)
         raise U("numpy.all of this value", node)
+
+
+class WholeParts:
+    """numpy.mod(E, 1) for an integer exponent matrix E: all zeros"""
+
+    def __init__(self, mat):
+        self.mat = mat
+
+    def sx_compare(self, ex, op, other, node, reflected):
+        if isinstance(other, int) and other == 0 and op in ("Eq", "NotEq"):
+            return op == "Eq"          # every entry equals 0
+        return NotImplemented
 
 
 class ArgWhere:
